@@ -22,7 +22,7 @@ thread_local! {
     static REBUILD_PARITY: std::cell::Cell<bool> = std::cell::Cell::new(false);
 }
 
-pub const CONVS: [&str; 10] = ["raw->gds", "raw->proto", "raw->lef", "lef->raw->lef", "proto->raw->proto", "gds->raw", "raw->gds->raw", "tetris->raw", "gds->raw:error", "raw->proto:error"];
+pub const CONVS: [&str; 11] = ["raw->gds", "raw->proto", "raw->lef", "lef->raw->lef", "proto->raw->proto", "gds->raw", "raw->gds->raw", "tetris->raw", "gds->raw:error", "raw->proto:error", "tetris->raw:error"];
 
 #[derive(Clone, Debug)]
 pub struct Case {
@@ -331,6 +331,39 @@ pub fn convert_once(case: &Case) -> Result<(Vec<(String, Vec<i16>)>, String), St
                 Err(x) => Ok((vec![], format!("Err: {x:?} / {x}"))),
             }
         }
+        10 => {
+            // gridded layout -> raw on a cell whose cut lies under an instance (or, with two_shapes, whose two cuts
+            // overlap): the conversion reports an error, and that error is the result
+            use crate::props::c08::{run_convert, CaseD};
+            use crate::refmodel::tiling::{stack_family, CellIn, ChildD, CrossD, InstIn};
+            let fam = stack_family();
+            let si = [1usize, 9, 10][(case.port_layers + case.perm) % 3];
+            let cell = CellIn {
+                metals: 2,
+                size: (6, 6),
+                cuts: if case.two_shapes { vec![CrossD(0, 0, 1, 1), CrossD(0, 0, 1, 1)] } else { vec![CrossD(0, 0, 1, 2)] },
+                assigns: vec![],
+                insts: vec![InstIn { child: 0, loc: (4, 0), rh: false, rv: false }],
+            };
+            let cd = CaseD { stack: si, cell, children: vec![ChildD { metals: 1, size: (2, 6) }] };
+            match run_convert(&fam[si], &cd)? {
+                Ok(cells) => Ok((vec![], format!("accepted (not judged here, see C08): {cells:?}"))),
+                Err(e) => Ok((vec![], format!("Err: {e}"))),
+            }
+        }
+        9 if case.block_layers != 3 => {
+            // raw -> GDSII (block_layers 0) / raw -> protobuf (block_layers 2) of an element whose layer does not
+            // define the element's purpose: the error is the result
+            let mut lib = build_raw(case);
+            let key = lib.layers.read().map_err(|_| "lock".to_string())?.slots.keys().next().ok_or("no layer")?;
+            let lay = Layout { name: "undefined_purpose".into(), insts: vec![], elems: vec![Element { net: None, layer: key, purpose: LayerPurpose::Other(77), inner: shape(5, false) }], annotations: vec![] };
+            lib.cells.push(Ptr::new(Cell::from(lay)));
+            let r = if case.block_layers == 0 { lib.to_gds().map(|_| ()) } else { lib.to_proto().map(|_| ()) };
+            match r {
+                Ok(()) => Ok((vec![], "accepted an undefined purpose (not judged here)".to_string())),
+                Err(x) => Ok((vec![], format!("Err: {x:?} / {x}"))),
+            }
+        }
         9 => {
             // raw -> protobuf on a library whose cells instantiate each other in a ring: the error is the result
             let n = 1 + case.port_layers.max(1);
@@ -466,7 +499,7 @@ impl CaseDriver for C20 {
     }
     fn describe(&self, _tier: Tier) -> Describe {
         Describe {
-            rule: "inputs: raw libraries with 1-2 abstract cells whose 1-2 ports carry shapes on 1-3 layers and whose blockages sit on 0/2/3 layers (unordered maps with 1-3 keys, every insertion order), 1-2 shapes per layer, plus a layout cell with elements on 3 layers x 2 purposes, an annotation and a reflected+rotated instance; LEF / protobuf / GDSII inputs derived from them in a fixed order. Conversions: raw->GDSII (bytes, dates pinned), raw->protobuf (prost bytes), raw->LEF (serde_json), LEF->raw->LEF, protobuf->raw->protobuf, GDSII->raw, raw->GDSII->raw, gridded layout->raw (raw results as an order-preserving dump; the gridded cell optionally holds two instances abutting along the tracks), and two conversions whose result is an error - GDSII->raw on struct rings of 2..4 closed by SREF / AREF (optionally a second ring, either listing order) and raw->protobuf on cell rings - where the rendered error is the compared output. Configurations: every input is rebuilt / re-imported with fresh HashMaps until each of the k! iteration orders of every map the exporter walks has been observed on the very map objects (minimum 32, cap 4096 rebuilds; coverage measured and reported as tags), plus fresh OS processes; conversions that expose no map (GDSII->raw) are repeated 32 times - unordered containers internal to a converter cannot be enumerated, only exercised. Two of the three layers may share a layer number. A state is (input, conversion); non-trivial = some map has >= 2 keys.".into(),
+            rule: "inputs: raw libraries with 1-2 abstract cells whose 1-2 ports carry shapes on 1-3 layers and whose blockages sit on 0/2/3 layers (unordered maps with 1-3 keys, every insertion order), 1-2 shapes per layer, plus a layout cell with elements on 3 layers x 2 purposes, an annotation and a reflected+rotated instance; LEF / protobuf / GDSII inputs derived from them in a fixed order. Conversions: raw->GDSII (bytes, dates pinned), raw->protobuf (prost bytes), raw->LEF (serde_json), LEF->raw->LEF, protobuf->raw->protobuf, GDSII->raw, raw->GDSII->raw, gridded layout->raw (raw results as an order-preserving dump; the gridded cell optionally holds two instances abutting along the tracks), and two conversions whose result is an error - GDSII->raw on struct rings of 2..4 closed by SREF / AREF (optionally a second ring, either listing order) raw->protobuf on cell rings, raw->GDSII / raw->protobuf of an element whose layer does not define its purpose, and gridded layout->raw of a cut lying under an instance / of two overlapping cuts - where the rendered error is the compared output. Configurations: every input is rebuilt / re-imported with fresh HashMaps until each of the k! iteration orders of every map the exporter walks has been observed on the very map objects (minimum 32, cap 4096 rebuilds; coverage measured and reported as tags), plus fresh OS processes; conversions that expose no map (GDSII->raw) are repeated 32 times - unordered containers internal to a converter cannot be enumerated, only exercised. Two of the three layers may share a layer number. A state is (input, conversion); non-trivial = some map has >= 2 keys.".into(),
             assumptions: vec!["an unordered map in the raw data model itself is rendered sorted (a map has no order); every ordered container must keep its order".into()],
             excluded: vec!["gridded layout -> raw is exercised on three stacks x a few cells only (the C08 alphabet is not re-enumerated here)".into()],
             technique: "exhaustive enumeration of hash-map iteration orders (observed on the real map objects) x inputs x conversions; outputs compared byte-for-byte within and across processes".into(),
